@@ -122,6 +122,31 @@ names icmpv6 / udplite: known finding). -/
 def ProtoOK (pr : Proto) : Prop :=
   ∃ k : Nat, k < 256 ∧ protoNumberRef pr = some k ∧ protocolToNumber pr = (k : Int)
 
+/-- **The builder's protocol table agrees with the API names**: every protocol the reference knows
+(tcp, udp, icmp, sctp, icmpv6, udplite, numbers 0..255) is compiled to its IANA number. -/
+theorem protoOK_of_ref (pr : Proto) (k : Nat) (h : protoNumberRef pr = some k) : ProtoOK pr := by
+  cases pr with
+  | num n =>
+    simp only [protoNumberRef] at h
+    split at h
+    · rename_i hn
+      cases h
+      exact ⟨n.toNat, by omega, by simp [protoNumberRef, hn], by simp only [protocolToNumber, toUint8]; omega⟩
+    · cases h
+  | name s =>
+    refine ⟨k, ?_, h, ?_⟩
+    · unfold protoNumberRef at h
+      simp only at h
+      generalize asciiLower s = l at h
+      by_cases h1 : l = "tcp" <;> by_cases h2 : l = "udp" <;> by_cases h3 : l = "icmp" <;> by_cases h4 : l = "sctp" <;>
+        by_cases h5 : l = "icmpv6" <;> by_cases h6 : l = "udplite" <;> simp_all <;> omega
+    · unfold protoNumberRef at h
+      unfold protocolToNumber
+      simp only at h ⊢
+      generalize asciiLower s = l at h ⊢
+      by_cases h1 : l = "tcp" <;> by_cases h2 : l = "udp" <;> by_cases h3 : l = "icmp" <;> by_cases h4 : l = "sctp" <;>
+        by_cases h5 : l = "icmpv6" <;> by_cases h6 : l = "udplite" <;> simp_all <;> omega
+
 theorem pkt_proto_toNat (st : List Byte) : (pktOfD st).proto.toNat = fieldN st 104 1 := by
   have := fieldN_lt st 104 1
   simp only [pktOfD, BitVec.toNat_ofNat]
